@@ -7,7 +7,6 @@ import (
 	"github.com/jig/lisp"
 	"github.com/jig/lisp/env"
 	"github.com/jig/lisp/lib/call"
-	"github.com/jig/lisp/lib/core/nscore"
 	. "github.com/jig/lisp/types"
 	"verif.example/h/lib"
 	"verif.example/h/vrt"
@@ -28,10 +27,7 @@ var skipped = map[string]bool{
 }
 
 func Setup() {
-	Base = env.NewEnv()
-	if err := nscore.Load(Base); err != nil {
-		panic(err)
-	}
+	Base = lib.StdEnv()
 	call.CallOverrideFN(Base, "trace!", func(v MalType) (MalType, error) { return v, nil })
 	// every name the loaders registered, enumerated from the environment itself
 	pk, err := Base.Get(Symbol{Val: "_PACKAGES_"})
